@@ -587,7 +587,70 @@ func execPrBurst(a []string) string {
 	return "ok"
 }
 
+// pr.cross <rounds> <seed>: the service keeps updating one property of the object while a client writes another
+// one and reads it back, and while the service itself writes and reads a third one: every read returns what was
+// just written to *that* property (no other writer touches it)
+func execPrCross(a []string) string {
+	rounds, _ := strconv.Atoi(a[0])
+	if s := prReset(); s != "ok" {
+		return s
+	}
+	t := prw.targets["custom"]
+	stop := make(chan struct{})
+	var bg sync.WaitGroup
+	bg.Add(1)
+	go func() {
+		defer bg.Done()
+		for v := int64(1); ; v++ {
+			select {
+			case <-stop:
+				return
+			default:
+			}
+			if !prRejected(v) {
+				t.update(201, v) // label
+			}
+		}
+	}()
+	defer func() { close(stop); bg.Wait() }()
+	v := int64(2000)
+	for i := 0; i < rounds; i++ {
+		v++
+		for prRejected(v) {
+			v++
+		}
+		if i%4 == 3 {
+			// the service writes the third property and reads it through a client
+			if err := t.update(202, v); err != nil {
+				return "fail:update-refused:" + err.Error()
+			}
+			got, err := t.obj.Property(value.String("ratio"))
+			if err != nil {
+				return "fail:read-refused:" + err.Error()
+			}
+			if _, d := prDecode(got); d != v {
+				lastFailDetail = fmt.Sprintf("round %d: ratio updated to %d, read %d", i, v, d)
+				return "fail:a-write-to-another-property-undid-this-one"
+			}
+			continue
+		}
+		if err := t.obj.SetProperty(value.String("level"), value.Int(int32(v))); err != nil {
+			return "fail:write-refused:" + err.Error()
+		}
+		got, err := t.obj.Property(value.String("level"))
+		if err != nil {
+			return "fail:read-refused:" + err.Error()
+		}
+		if _, d := prDecode(got); d != v {
+			lastFailDetail = fmt.Sprintf("round %d: level set to %d, read %d", i, v, d)
+			return "fail:a-write-to-another-property-undid-this-one"
+		}
+	}
+	return "ok"
+}
+
 func init() {
+	executors["pr.cross"] = execPrCross
 	executors["pr.burst"] = execPrBurst
 	for _, op := range []string{"reset", "set", "get", "update", "events"} {
 		executors["pr."+op] = execPr(op)
@@ -684,6 +747,14 @@ func runC14(r *Rand, tier string, o *Out) {
 			o.Fail("property events of simultaneous writes are not one per write: "+strings.TrimPrefix(out, "fail:"), line+" => "+out+" "+lastFailDetail)
 		}
 		o.Count("write-bursts")
+	}
+	// writes to different properties of one object at the same time
+	for i := 0; i < 2; i++ {
+		line := fmt.Sprintf("pr.cross %d %d", bursts/2, r.U64()>>1)
+		if out := o.Do("P", line, true); out != "ok" {
+			o.Fail("properties of one object written at the same time: "+strings.TrimPrefix(out, "fail:"), line+" => "+out+" "+lastFailDetail)
+		}
+		o.Count("writes-to-different-properties")
 	}
 	// concurrent histories on one register: clients and the service
 	hists := 60
